@@ -175,6 +175,9 @@ class C03(SpecValueCheck):
         p = super().profile(tier, shard)
         p.constructed = p.constructed + ['SET', 'SET OF']
         p.kinds = p.kinds + ['REAL', 'BIT STRING']
+        # whether a tag is implicit or explicit is decided through whole reference chains and across imports
+        p.alias_chain_rate = 35
+        p.dup_names_rate = 15
         return p
 
     def valcfg(self, tier, shard):
